@@ -106,6 +106,8 @@ CLAIMS.update({
          "Completeness w.r.t. a declarative typing relation is not proved; 72 rule programs and 1920 overload calls are executed.",
          "machine-checked proof (Lean 4) about a hand-written model + typed-tree correspondence", "6 C07"),
  'C10': ("proof", "Proof, partial. The front-end models are total Lean functions tied to the implementation on error class and position; "
+         "parse_never_runs_out_of_fuel (induction over the 25 grammar functions, every source text): the parser model's explicit fuel is never "
+         "exhausted, so parse_total is three-way: tree, located lexer error or located parser error; "
          "string/character data can never make the output unassemblable (escape round trip). NOT MODELLED (runtime): exit status, stderr and "
          "output file of the hidc process are observed on the real command-line tool; absence of internal exceptions on four input "
          "streams x option combinations is validated in-process, every accepted output is assembled by the Lean assembler.",
